@@ -33,4 +33,18 @@ SPECS = {
                     "the statement is false (counterexample = F6 of 3.17.0).  Run: retain with a panic injected at every closure index; "
                     "str::from_utf8(as_bytes()) after catch_unwind; the model recomputes the bytes the crate leaves.",
     ),
+    # String part of C18 ("a Vec/String with reserved capacity accepts that many elements without moving"): oracle lines carry
+    # property C18; theorem: Props/C18Cap.lean (every growing call is RawVec::reserve(len, k) + k writes; no reallocation while
+    # len + k <= capacity)
+    "C18S": dict(
+        family="str", lean_module="BumpVerif.Props.C18Cap", level="proof", oracle_prop="C18",
+        fields=["res", "len", "capge"],
+        nontrivial_ops=["s_with_cap", "s_reserve", "s_push", "s_push_str", "s_insert", "s_insert_str", "s_extend_chars", "s_extend_strs", "s_write"],
+        str_jobs=[("build", 160, 50), ("general", 120, 50)],
+        decoders=False, thorough_scale=20, trusted_extra=STR_TRUSTED,
+        explanation="Theorem reserved_capacity_honoured (RawVec level: a growing call whose result fits the capacity does not reallocate) + run: "
+                    "capacity() and as_ptr() of the bumpalo String before/after every growing call whose resulting length fits the old "
+                    "capacity must be unchanged (oracle string-moved-within-capacity), with multi-byte pushes at every distance from the end "
+                    "of the capacity.",
+    ),
 }
